@@ -1177,6 +1177,12 @@ func (o *Origin) inlinable(fn *ssa.Function) bool {
 	if o.p.hasOwnStoreOp(fn) {
 		return false // a store accessor (also one that delegates the operation to a helper it hands its store to)
 	}
+	if fn.Signature.Recv() != nil {
+		switch fn.Name() {
+		case "ValidateBasic", "GetSigners", "GetSignBytes", "Valid", "Validate":
+			return false // the sdk.Msg / validation entry points are anchors the rules name, whatever their body looks like
+		}
+	}
 	rets := 0
 	for _, b := range fn.Blocks {
 		if inCycle(b) {
